@@ -80,6 +80,10 @@ impl<'a> Docs<'a> {
         DocGen::new(s, s).with_loose(loose).document(n)
     }
 
+    pub fn formatted_main(&mut self) -> String {
+        self.formatted(self.main_cfg)
+    }
+
     fn formatted(&mut self, cfg: Cfg) -> String {
         for _ in 0..4 {
             let d = self.fresh_doc(0.3);
@@ -285,8 +289,21 @@ pub fn gen_tree(rng: &mut Rng, docs: &mut Docs) -> Tree {
         tree.insert(t.clone(), Node::Dir);
     }
     let base = top.clone().unwrap_or_else(|| ".".into());
-    let wide = rng.chance(0.05);
-    let n = if wide {
+    let c14 = docs.params.focus == Focus::C14;
+    let very_wide = rng.chance(if c14 { 0.05 } else { 0.015 });
+    // The exit status of a check is an OR over the inputs, so a tree in which exactly one file
+    // differs is the most sensitive workload for anything that loses, skips or mis-accounts a few
+    // inputs of many: in most of the very wide trees, and in a share of the ordinary ones, all
+    // files are formatted except one.
+    let single_odd = rng.chance(if c14 { 0.7 } else { 0.5 });
+    let one_differs = !very_wide && rng.chance(if c14 { 0.3 } else { 0.1 });
+    let mut differing_placed = false;
+    let odd_index = rng.below(150);
+    let wide = very_wide || rng.chance(0.05);
+    let n = if very_wide {
+        // several times more files than cores
+        rng.range(64, 150)
+    } else if wide {
         // more eligible files than cores / than any small batch size
         rng.range(17, 45)
     } else {
@@ -325,7 +342,7 @@ pub fn gen_tree(rng: &mut Rng, docs: &mut Docs) -> Tree {
             }
         }
         let mut name = if wide && rng.chance(0.85) {
-            format!("f{:02}.typ", i)
+            format!("f{:03}.typ", i)
         } else if rng.chance(0.55) {
             rng.pick(TYP_NAMES).to_string()
         } else {
@@ -372,6 +389,27 @@ pub fn gen_tree(rng: &mut Rng, docs: &mut Docs) -> Tree {
             let target_key = if !files.is_empty() && rng.chance(0.8) { rng.pick(&files).clone() } else { join(&dir, "missing.typ") };
             let t = rel_from(&dir, &target_key);
             tree.insert(key, Node::Symlink(t));
+        } else if very_wide && (single_odd || rng.chance(0.9)) {
+            // keep the many files cheap: mostly formatted one-liners, a few that differ
+            let id = docs.counter;
+            docs.counter += 1;
+            let differs = if single_odd { i == odd_index % n } else { rng.chance(0.15) };
+            let text = if !differs { format!("#let zqw{}x{} = 1\n", docs.seed % 9973, id) } else { format!("#let   zqw{}x{}=1\n", docs.seed % 9973, id) };
+            tree.insert(key, Node::File(text.into()));
+        } else if one_differs && name.ends_with(".typ") {
+            // all formatted (under the main style) except the first or a random later one
+            let last_chance = i + 1 == n;
+            if !differing_placed && (last_chance || rng.chance(0.3)) {
+                differing_placed = true;
+                let c = match rng.below(3) {
+                    0 => docs.fresh_doc(0.7).into(),
+                    _ => docs.content(),
+                };
+                tree.insert(key, Node::File(c));
+            } else {
+                let f = docs.formatted_main();
+                tree.insert(key, Node::File(f.into()));
+            }
         } else {
             tree.insert(key, Node::File(docs.content()));
         }
@@ -439,15 +477,31 @@ pub fn gen_inv(rng: &mut Rng, tree: &Tree, docs: &mut Docs, focus: Focus, main_s
         Focus::C16 => [38, 14, 2, 26, 2, 16, 1, 1],
         Focus::Mixed => [14, 18, 14, 10, 8, 18, 16, 2],
     };
-    let shape = match rng.weighted(&w) {
+    // a tree with very many files: most invocations should walk (or list) all of them
+    let nfiles = files_of(tree).len();
+    let big = nfiles >= 17 && rng.chance(if nfiles >= 64 { 0.8 } else { 0.4 });
+    let shape_pick = if big { if rng.chance(0.5) { 6 } else { 5 } } else { rng.weighted(&w) };
+    let shape = match shape_pick {
         0 => Shape::Files { mode: Mode::Stdout, paths: gen_paths(rng, tree, &cwd, Mode::Stdout) },
         1 => Shape::Files { mode: Mode::Inplace, paths: gen_paths(rng, tree, &cwd, Mode::Inplace) },
         2 => Shape::Files { mode: Mode::Check, paths: gen_paths(rng, tree, &cwd, Mode::Check) },
         3 => Shape::Stdin { check: false },
         4 => Shape::Stdin { check: true },
         5 | 6 => {
-            let check = rng.weighted(&w[5..7]) == 1;
-            let dir = if rng.chance(0.25) {
+            let check = if big { shape_pick == 6 && focus != Focus::C15 || focus == Focus::C14 && rng.chance(0.7) } else { rng.weighted(&w[5..7]) == 1 };
+            let dir = if big {
+                // the directory with the most files below it (ties: shortest path)
+                let mut best = ".".to_string();
+                let mut best_n = 0;
+                for d in &dirs {
+                    let k = tree.keys().filter(|k| is_below(k, d)).count();
+                    if k > best_n || (k == best_n && d.len() < best.len()) {
+                        best = d.clone();
+                        best_n = k;
+                    }
+                }
+                Some(spell(rng, &cwd, &best, true))
+            } else if rng.chance(0.25) {
                 None
             } else {
                 let d = rng.pick(&dirs).clone();
@@ -564,6 +618,11 @@ pub fn gen_case(seed: u64, profile: &str, params: &GenParams, oracle: &mut Oracl
                 let mut q = pv.clone();
                 q.shim_seed = inv.shim_seed;
                 q.readdir = inv.readdir.clone();
+                if pattern >= 3 {
+                    // same files / directory, other style options: state kept from the previous
+                    // invocation (a cache, a stamp file) must not leak into this one
+                    q.style = gen_cfg(&mut rng);
+                }
                 q.shape = match (&pv.shape, i % 2) {
                     (Shape::Files { paths, mode }, 1) => Shape::Files {
                         mode: match mode {
